@@ -2,6 +2,9 @@ import Proofs.KeysTotal
 import Proofs.KeysPem
 import Proofs.KeysInst
 import Proofs.KeysInstPub
+import Proofs.KeysEcdh
+import Props.C12
+import Props.C02
 /-!
 # C10 — decoders of external data fail only with their documented exceptions (key loaders)
 
@@ -9,8 +12,9 @@ import Proofs.KeysInstPub
 definitions (structural recursion, no fuel).  Documented for the key loaders: `UnexpectedDER`,
 `MalformedPointError`, `UnknownCurveError`.
 
-Proved elsewhere: `sigdecode_string / sigdecode_strings / sigdecode_der` (Props/C12), `verify / verify_digest` with
-each decoder (Props/C02), the ECDH byte / DER / PEM loaders (Props/C05).
+The signature decoders, verification through each decoder and the ECDH loaders are composed below from `Props/C12`
+(`sigdecode_*_errors`), `Props/C02` (`verify_digest_outcomes*`) and `Model/Ecdh.lean` with its key constructors
+instantiated by the Keys model (`Proofs/KeysEcdh.lean`).
 -/
 namespace C10
 open Keys KeysP
@@ -131,5 +135,120 @@ def ext0 : Ext :=
 example : SK.fromDer ext0 [0x30, 0x06, 0x02, 0x01, 0x01, 0x04, 0x20, 0x01] = .error .unexpectedDER := by decide +kernel
 
 example : SK.fromPem ext0 [110, 111, 32, 104, 101, 97, 100, 101, 114] = .error .unexpectedDER := by decide +kernel
+
+/-! ## signature decoders (composition of `C12.sigdecode_*_errors`) -/
+
+/-- `sigdecode_string`, `sigdecode_strings`, `sigdecode_der`: for every byte string / list of byte strings and every
+order, the decoder returns a pair or raises `MalformedSignature` (raw forms) resp. `UnexpectedDER` (DER) — nothing else -/
+theorem sig_decoders_total (sig : Bytes) (sigs : List Bytes) (n : Nat) :
+    ((∃ rs, Util.sigdecodeString sig n = .ok rs) ∨ Util.sigdecodeString sig n = .error .malformedSignature) ∧
+    ((∃ rs, Util.sigdecodeStrings sigs n = .ok rs) ∨ Util.sigdecodeStrings sigs n = .error .malformedSignature) ∧
+    ((∃ rs, Util.sigdecodeDer sig n = .ok rs) ∨ Util.sigdecodeDer sig n = .error .unexpectedDER) := by
+  refine ⟨?_, ?_, ?_⟩
+  · cases h : Util.sigdecodeString sig n with
+    | ok rs => exact Or.inl ⟨rs, rfl⟩
+    | error e => right; rw [((C12.sigdecode_string_errors sig n).2 e h).1]
+  · cases h : Util.sigdecodeStrings sigs n with
+    | ok rs => exact Or.inl ⟨rs, rfl⟩
+    | error e => right; rw [(C12.sigdecode_strings_errors sigs n).2 e h]
+  · cases h : Util.sigdecodeDer sig n with
+    | ok rs => exact Or.inl ⟨rs, rfl⟩
+    | error e => right; rw [(C12.sigdecode_der_errors sig n).2 e h]
+
+/-! ## verification through every decoder (composition of `C02.verify_digest_outcomes`) -/
+
+section Verify
+open Ecdsa
+variable {P : Type} {𝔾 : Type} [AddCommGroup 𝔾]
+variable {ops : PointOps P} {G : 𝔾} {den : P → 𝔾} {xc : 𝔾 → Option ℤ} {valid : P → Prop}
+
+/-- the three outcomes of a verification call -/
+def VerifyOutcome (r : Res Bool) : Prop := r = .ok true ∨ r = .error .badSignature ∨ r = .error .badDigest
+
+/-- `verify_digest` and `verify` through `sigdecode_string`, `sigdecode_strings` and `sigdecode_der`: for every byte string
+(list of byte strings) offered as a signature, every non-empty digest / every hash function with non-empty output and
+both settings of `allow_truncate`, the call returns `True` or raises `BadSignatureError` / `BadDigestError` — never a
+false value, never `MalformedSignature`, `UnexpectedDER`, `TypeError` (F4) or anything else.  `C` = the point layer is
+correct (instantiated for the named curves below). -/
+theorem verify_total_all_decoders (C : PointOpsCorrect ops G den xc valid) (Q : P) (hQ : valid Q)
+    (sig : Bytes) (sigs : List Bytes) (dg : Bytes) (hne : dg ≠ []) (H : Bytes → Bytes) (hH : ∀ m, H m ≠ [])
+    (data : Bytes) (allow : Bool) :
+    VerifyOutcome (verifyDigest ops Q Util.sigdecodeString sig dg allow) ∧
+    VerifyOutcome (verifyDigest ops Q Util.sigdecodeStrings sigs dg allow) ∧
+    VerifyOutcome (verifyDigest ops Q Util.sigdecodeDer sig dg allow) ∧
+    VerifyOutcome (verify ops Q H Util.sigdecodeString sig data allow) ∧
+    VerifyOutcome (verify ops Q H Util.sigdecodeStrings sigs data allow) ∧
+    VerifyOutcome (verify ops Q H Util.sigdecodeDer sig data allow) :=
+  ⟨C02.verify_digest_outcomes_string C Q hQ sig dg hne allow,
+   C02.verify_digest_outcomes_strings C Q hQ sigs dg hne allow,
+   C02.verify_digest_outcomes_der C Q hQ sig dg hne allow,
+   C02.verify_outcomes C Q hQ H hH _ sigdecodeString_errors sig data allow,
+   C02.verify_outcomes C Q hQ H hH _ sigdecodeStrings_errors sigs data allow,
+   C02.verify_outcomes C Q hQ H hH _ derErrorsCaught sig data allow⟩
+
+/-- the same on the point-arithmetic model for every row of the generated curve table (all 17 curves; hypotheses: `p`,
+`n` prime; the base-point order is checked by the kernel, `Proofs/NamedCurves`), for any key object `Q` that denotes an
+element of ⟨G⟩ -/
+theorem verify_total_all_decoders_named (r : Gen.CurveRow) (hr : r ∈ Gen.curveTable) [Fact r.p.Prime] (hn : r.n.Prime)
+    (Q : Curve.Pt) (hQ : OnCurve.Valid (Named.baseCtx r (Named.checked_of_mem hr)) Q)
+    (sig : Bytes) (sigs : List Bytes) (dg : Bytes) (hne : dg ≠ []) (H : Bytes → Bytes) (hH : ∀ m, H m ≠ [])
+    (data : Bytes) (allow : Bool) :
+    VerifyOutcome (verifyDigest (OnCurve.ops (Named.crvOf r)) Q Util.sigdecodeString sig dg allow) ∧
+    VerifyOutcome (verifyDigest (OnCurve.ops (Named.crvOf r)) Q Util.sigdecodeStrings sigs dg allow) ∧
+    VerifyOutcome (verifyDigest (OnCurve.ops (Named.crvOf r)) Q Util.sigdecodeDer sig dg allow) ∧
+    VerifyOutcome (verify (OnCurve.ops (Named.crvOf r)) Q H Util.sigdecodeString sig data allow) ∧
+    VerifyOutcome (verify (OnCurve.ops (Named.crvOf r)) Q H Util.sigdecodeStrings sigs data allow) ∧
+    VerifyOutcome (verify (OnCurve.ops (Named.crvOf r)) Q H Util.sigdecodeDer sig data allow) :=
+  verify_total_all_decoders
+    (OnCurve.pointOpsCorrect (Named.crvOf r) _ (Named.matches_row (Named.checked_of_mem hr) hn)) Q hQ
+    sig sigs dg hne H hH data allow
+
+end Verify
+
+/-! ## the ECDH loaders (`Model/Ecdh.lean` with the Keys model as key constructors) -/
+
+/-- the documented failures of the ECDH loaders -/
+theorem ecdh_documented_iff (e : PyErr) :
+    EcdhDocumented e ↔ (e = .unexpectedDER ∨ e = .malformedPoint ∨ e = .unknownCurve) ∨ e = .invalidCurve := Iff.rfl
+
+/-- `ECDH.load_private_key_bytes/_der/_pem` and `load_received_public_key_bytes/_der/_pem` on the state machine of
+`Model/Ecdh.lean`, for ANY environment whose six key constructors are the Keys model's loaders (`LoadersAreKeys`; the
+point operations and `generate` are arbitrary): each call returns, or raises `MalformedPointError` / `UnexpectedDER` /
+`UnknownCurveError` / `InvalidCurveError`; the byte-string loaders need a curve (of the table) to be set, and
+`load_private_key_bytes` without a curve raises `NoCurveError`.  (`load_received_public_key_bytes` without a curve is
+`AttributeError` in code and model — an ECDH object without curve is outside the property, DESIGN §2 observations.) -/
+theorem ecdh_loaders_total {Pt Ent : Type} (E : Ext) (hE : ExtOK E) (mkPt : Curve → Nat → Nat → Pt)
+    (env : Ecdh.Env Curve Pt Ent) (hk : LoadersAreKeys E mkPt env) (s : Ecdh.State Curve Pt) (b : Bytes) :
+    (∀ op ∈ [Ecdh.Op.loadPrivDer b, .loadPrivPem b, .loadPubDer b, .loadPubPem b],
+      ∀ e, (Ecdh.step env s op).2 = .error e → EcdhDocumented e) ∧
+    (∀ c, s.curve = some c → c ∈ Gen.curveTable → ∀ op ∈ [Ecdh.Op.loadPrivBytes b, .loadPubBytes b],
+      ∀ e, (Ecdh.step env s op).2 = .error e → EcdhDocumented e) ∧
+    (s.curve = none → (Ecdh.step env s (.loadPrivBytes b)).2 = .error .noCurve) := by
+  refine ⟨?_, ?_, ?_⟩
+  · intro op hop e h
+    obtain ⟨h1, h2, h3, h4, _, _⟩ := ecdh_loaders_err E hE.1 hE.2 mkPt env hk s b e
+    simp only [List.mem_cons, List.not_mem_nil, or_false] at hop
+    rcases hop with rfl | rfl | rfl | rfl
+    · exact h1 h
+    · exact h2 h
+    · exact h3 h
+    · exact h4 h
+  · intro c hc hmem op hop e h
+    obtain ⟨_, _, _, _, h5, _⟩ := ecdh_loaders_err E hE.1 hE.2 mkPt env hk s b e
+    simp only [List.mem_cons, List.not_mem_nil, or_false] at hop
+    rcases hop with rfl | rfl
+    · exact (h5 c hc hmem).1 h
+    · exact (h5 c hc hmem).2 h
+  · exact (ecdh_loaders_err E hE.1 hE.2 mkPt env hk s b .other).2.2.2.2.2
+
+/-- the instantiation: an `Ecdh.Env` built from the composed Keys model (`KeysWire.modelExt`) for any point operations
+satisfies `LoadersAreKeys`, and `ExtOK` holds for it given only `p`, `n` prime on the table — so `ecdh_loaders_total`
+applies with no other hypothesis -/
+theorem ecdh_loaders_total_model {Pt Ent : Type} (hprime : ∀ c ∈ Gen.curveTable, c.p.Prime ∧ c.n.Prime)
+    (mkPt : Curve → Nat → Nat → Pt) (mul : Pt → Int → Res Pt) (isInf : Pt → Bool) (xOf : Pt → Res Int)
+    (generate : Curve → Ent → Res (Ecdh.SKey Curve Pt)) :
+    LoadersAreKeys KeysWire.modelExt mkPt (ecdhEnv KeysWire.modelExt mkPt mul isInf xOf generate) ∧
+      ExtOK KeysWire.modelExt :=
+  ⟨ecdhEnv_loaders _ _ _ _ _ _, (all_loaders_total_model hprime).1⟩
 
 end C10
